@@ -328,6 +328,37 @@ func runC14(r *mc.Run) {
 			}
 		}
 	}
+	// an expectation that spells the quote's value in another byte order (whole value reversed — a register written
+	// most significant byte first —, every 2 / 4 / 8 bytes reversed, halves exchanged): the message means those bytes
+	for _, f := range polFields {
+		v0 := val(f)
+		rev := func(x []byte) {
+			for i, j := 0, len(x)-1; i < j; i, j = i+1, j-1 {
+				x[i], x[j] = x[j], x[i]
+			}
+		}
+		for _, mode := range []string{"reversed", "each-2-reversed", "each-4-reversed", "each-8-reversed", "halves-exchanged"} {
+			v := append([]byte(nil), v0...)
+			switch mode {
+			case "reversed":
+				rev(v)
+			case "halves-exchanged":
+				h := len(v) / 2
+				copy(v, append(append([]byte{}, v0[h:]...), v0[:h]...))
+			default:
+				n := map[string]int{"each-2-reversed": 2, "each-4-reversed": 4, "each-8-reversed": 8}[mode]
+				for o := 0; o+n <= len(v); o += n {
+					rev(v[o : o+n])
+				}
+			}
+			if bytes.Equal(v, v0) {
+				continue
+			}
+			p := &ccpb.Policy{}
+			f.set(p, v)
+			add("reencoded/"+f.name+"/"+mode, p)
+		}
+	}
 	// RTMR lists 0..5 over {empty, full, short, different}
 	rk := []string{"em", "fu", "sh", "df"}
 	for n := 0; n <= 5; n++ {
